@@ -1635,7 +1635,16 @@ type ProposalMessage struct {
 
 // ValidateBasic performs basic validation.
 func (m *ProposalMessage) ValidateBasic() error {
-	return m.Proposal.ValidateBasic()
+	if err := m.Proposal.ValidateBasic(); err != nil {
+		return err
+	}
+	// The part count sizes allocations (the peer's part bit array, and the
+	// part set itself once the proposer's signature checks out) long before
+	// any part arrives, so it must be bounded here.
+	if total := m.Proposal.BlockID.PartSetHeader.Total; total > types.MaxBlockPartsCount {
+		return fmt.Errorf("proposal block parts count is too big: %d, max: %d", total, types.MaxBlockPartsCount)
+	}
+	return nil
 }
 
 // String returns a string representation.
